@@ -236,10 +236,8 @@ def run(tier, seed):
     actions = {}
     with open(casesf, "w") as cf:
         for cfg in plan["cfg"]:
-            r = core.tlc_or_die("ArgBind", cfg=cfg, timeout=1500, coverage=True, workers=jobs)
+            r = core.tlc_or_die("ArgBind", cfg=cfg, timeout=1500, workers=jobs)
             cov["tlc"].append(dict(r.summary(), config=cfg))
-            for a, (d, t) in r.coverage.items():
-                actions[a] = actions.get(a, 0) + d
             for c in r.printed:
                 cf.write(json.dumps(c, separators=(",", ":")) + "\n")
                 ncases += 1
@@ -252,6 +250,12 @@ def run(tier, seed):
                     classes["bound+kw"] = classes.get("bound+kw", 0) + 1
                 if c[6] or c[7]:
                     nontrivial += 1
+                # which actions of the spec built this state (vacuity guard on the model)
+                if c[6]:
+                    actions["AddPositional"] = actions.get("AddPositional", 0) + 1
+                for n, k in c[7]:
+                    a = "AddKwNonStr" if k == "ns" else "AddKwUnknown" if n == "zz" else "AddKwPosOnly" if n[0] == "p" else "AddKwParam"
+                    actions[a] = actions.get(a, 0) + 1
                 sig_seen.add(L.sig_of_case(c))
                 if len(samples) < 4 and c[7] and rng.random() < 0.001:
                     samples.append(c)
@@ -265,7 +269,7 @@ def run(tier, seed):
         core.die("vacuous model: classes %r kinds %r" % (classes, kinds_seen))
     for a in ("AddPositional", "AddKwParam", "AddKwPosOnly", "AddKwUnknown", "AddKwNonStr"):
         if actions.get(a, 0) == 0:
-            core.die("vacuous model: action %s never taken (%r)" % (a, actions))
+            core.die("vacuous model: no published state was built by action %s (%r)" % (a, actions))
     if sig_seen != set(sigs):
         core.die("signature family of the spec (%d) differs from the harness enumeration (%d)" % (len(sig_seen), len(sigs)))
 
